@@ -36,6 +36,7 @@ pub fn def() -> CheckDef {
                 ("op_Exists_dom", 100 * m),
                 ("op_Forall_dom", 50 * m),
                 ("readme_equivalences", 1000 * m),
+                ("repeated_domain_in_two_scopes", 200 * m),
             ]
         },
         run,
@@ -71,7 +72,33 @@ fn run(rng: &mut Rng, _idx: u64, tier: Tier) -> CaseOut {
         _ => {}
     }
     let net = crate::net::gen_net(rng, &nopts);
-    let f = gen_formula(rng, &fopts, &net.names);
+    let f = if fopts.max_quant_depth >= 2 && rng.chance(1, 4) {
+        // the same inner (variable, domain) pair in two different enclosing scopes of one formula
+        let mut bopts = fopts.clone();
+        bopts.max_quant_depth = 0;
+        bopts.hybrids = true;
+        bopts.max_size = 5;
+        bopts.domain_pct = 0;
+        let scope = ["x".to_string(), "y".to_string()];
+        let inner_dom = rng.pick(&["p", "d", "e"]).to_string();
+        let branch = |rng: &mut Rng| {
+            let outer_dom = if rng.chance(2, 3) { Some(rng.pick(&["p", "d", "e"]).to_string()) } else { None };
+            let q1 = *rng.pick(&[Hyb::Bind, Hyb::Exists, Hyb::Forall]);
+            let q2 = *rng.pick(&[Hyb::Bind, Hyb::Exists, Hyb::Forall]);
+            let body = gen_open_formula(rng, &bopts, &net.names, &scope);
+            let body = if rng.coin() { F::Hyb(Hyb::Jump, "x".to_string(), None, Box::new(body)) } else { body };
+            F::Hyb(q1, "x".to_string(), outer_dom, Box::new(F::Hyb(q2, "y".to_string(), Some(inner_dom.clone()), Box::new(body))))
+        };
+        let a = branch(rng);
+        let b = branch(rng);
+        bin(*rng.pick(&[Bin::And, Bin::Or, Bin::Imp, Bin::Xor]), a, b)
+    } else {
+        gen_formula(rng, &fopts, &net.names)
+    };
+    if f.quant_depth() >= 2 {
+        let mut subs = Vec::new();
+        f.subformulas(&mut subs);
+    }
     // body for the README equivalences: open in {x}
     let mut bopts = fopts.clone();
     bopts.max_quant_depth = fopts.max_quant_depth - 1;
@@ -98,6 +125,15 @@ fn run(rng: &mut Rng, _idx: u64, tier: Tier) -> CaseOut {
         return out;
     }
     count_ops(&mut out, &f);
+    if let F::Bin(_, a, b) = &f {
+        if let (F::Hyb(_, _, _, a2), F::Hyb(_, _, _, b2)) = (&**a, &**b) {
+            if let (F::Hyb(_, v1, Some(d1), _), F::Hyb(_, v2, Some(d2), _)) = (&**a2, &**b2) {
+                if v1 == v2 && d1 == d2 {
+                    out.count("repeated_domain_in_two_scopes");
+                }
+            }
+        }
+    }
     if nested_domains(&f, false) {
         out.count("nested_domains");
     }
